@@ -42,16 +42,19 @@ def run_history(ctx: Ctx, ops_sym, tag: str, corpus: bool = False):
             break
         concrete.append(op)
         status, out = rw.apply(op)
+        quiet = bool(op.get("setup"))  # set-up operations are checked once, at the end of the set-up
         if status == "ok":
-            impl_out.append(f"ok:{out}:{render_world(rw)}")
+            impl_out.append("ok:-:~" if quiet else f"ok:{out}:{render_world(rw)}")
         else:
             impl_out.append(f"ERR:{out}")
             stop = True
         # ---- oracle: the reference table, stated on the real code
         exp_status, exp_out = rf.apply(op)
-        ref.judge(ctx, op, concrete, status, out, exp_status, exp_out, rw, rf)
-        if exp_status != "ok" or status != "ok":
-            stop = True
+        nviol = ctx.hist.get("oracle_failures", 0)
+        if not (quiet and status == "ok" and exp_status == "ok"):
+            ref.judge(ctx, op, concrete, status, out, exp_status, exp_out, rw, rf)
+        if exp_status != "ok" or status != "ok" or ctx.hist.get("oracle_failures", 0) != nviol:
+            stop = True  # the history ends at the first error, skip or violated expectation
     case = {"ops": concrete}
     nontrivial = sum(1 for o in concrete if o["op"] in ("subset", "extend", "merge", "filter", "del")) >= 1
     ctx.case(case, nontrivial=nontrivial)
@@ -59,7 +62,8 @@ def run_history(ctx: Ctx, ops_sym, tag: str, corpus: bool = False):
     for o in concrete:
         ctx.count("op=" + o["op"] + (":" + o["how"] if "how" in o else ""))
     # ---- correspondence
-    line = "c09 run " + units_token() + " " + " | ".join(" ".join(op_tokens(o)) for o in concrete)
+    line = "c09 run " + units_token() + " " + " | ".join(
+        ("q " if o.get("setup") else "") + " ".join(op_tokens(o)) for o in concrete)
     model = ctx.driver.ask1(line).split(" || ")
     ctx.traces += 1
     if model != impl_out:
